@@ -231,7 +231,9 @@ def rule_keyspace(program, ctx):
         ctx.bad(finding_func(P, rid, wt, f"tombstone key {tomb!r} does not sort after every index prefix: set_range past the last key of the highest index returns False and the scan is skipped", text="def write_tombstone(...)"))
     ge = program.func("nostr_relay.storage.kv:get_event_data")
     idp = next((p for p, n in prefixes.items() if n == "IdIndex"), None)
-    lit = next((b.left.value for b in ast.walk(ge) if isinstance(b, ast.BinOp) and isinstance(b.left, ast.Constant) and isinstance(b.left.value, bytes)), None)
+    from ..lib import bytes_prefix_of
+
+    lit = bytes_prefix_of(ge)
     if lit == idp:
         ctx.ok(rid, ge, "get_event_data reads under IdIndex.prefix")
     else:
